@@ -505,7 +505,8 @@ func readString(dst, b []byte) ([]byte, []byte, error) {
 	var n uint64
 
 	if len(b) == 0 {
-		return b, dst, errors.New("no bytes left reading a string. Malformed data?")
+		// the string starts in the bytes that have not arrived yet
+		return b, dst, ErrUnexpectedSize
 	}
 
 	mustDecode := b[0]&128 == 128 // huffman encoded
